@@ -44,6 +44,26 @@ var hostValues = []func() interface{}{
 	func() interface{} { return map[int]string{1: "a"} },
 }
 
+// host values whose pointers / interfaces form a cycle without passing through a container
+type cycP *cycP
+
+func cyclicHostValues() []func() interface{} {
+	return []func() interface{}{
+		func() interface{} { var x interface{}; x = &x; return map[string]interface{}{"a": x} },
+		func() interface{} { return struct{ A cycP }{} },
+		func() interface{} { var x interface{}; x = &x; return x },
+		func() interface{} {
+			type node struct {
+				Val  int
+				Next *node
+			}
+			n := &node{Val: 1}
+			n.Next = n
+			return n
+		},
+	}
+}
+
 func budgetFor(src string) time.Duration {
 	return 2*time.Second + time.Duration(len(src))*time.Millisecond/10
 }
@@ -134,6 +154,35 @@ func growthCase(name string, gen func(d int) string, depths []int, id string) Ca
 	return c
 }
 
+// hostGrowthCase: conversion time of host values nested in first position at increasing depth.
+func hostGrowthCase() Case {
+	if guardBegin("growth host nesting") {
+		return crashCase("growth host nesting")
+	}
+	defer guardEnd()
+	c := Case{Human: "growth host value: list nested in first position", Tags: []string{"api:growth"}, Nontriv: true, Want: "ok"}
+	var report []string
+	for _, d := range []int{4, 8, 12, 16, 20, 24, 28, 32} {
+		var v interface{} = []interface{}{1}
+		for i := 0; i < d; i++ {
+			v = []interface{}{v}
+		}
+		env := map[string]interface{}{"a": v}
+		_, pan, dur := apiOutcome(func() error { _, err := yae.Eval("1", env); return err })
+		report = append(report, fmt.Sprintf("d=%d:%v", d, dur.Round(time.Microsecond)))
+		if pan != "" {
+			c.Oracle, c.OracleID = "panicked: "+trim(pan), "api-panic"
+			return c
+		}
+		if dur > 1500*time.Millisecond {
+			c.Oracle, c.OracleID = "conversion time of a nested host list grows super-polynomially: "+strings.Join(report, " "), "api-superpoly"
+			c.Want = "slow"
+			return c
+		}
+	}
+	return c
+}
+
 func init() {
 	register(&Stream{
 		Name: "api",
@@ -191,6 +240,11 @@ func init() {
 					}
 				}
 			}
+			// cyclic host values (each in a case of its own: a hang costs the watchdog's timeout)
+			for i, mk := range cyclicHostValues() {
+				hostValues = append(hostValues, mk)
+				cs = append(cs, apiCase("1", len(hostValues)-1, fmt.Sprintf("cyclic-host-value-%d", i)))
+			}
 			// nests and chains
 			depths := []int{10, 100, 500, 2000}
 			for _, d := range depths {
@@ -207,6 +261,9 @@ func init() {
 				cs = append(cs, apiCase("[1"+strings.Repeat(", 1", k)+"]", 0, "wide-list"))
 				cs = append(cs, apiCase("1"+strings.Repeat(" ^ 1", k/10), 0, "chain-right-assoc"))
 			}
+			cs = append(cs, growthCase("method-call chain x.abs().abs()…", func(d int) string { return "1" + strings.Repeat(".abs()", d) }, []int{4, 8, 12, 16, 20, 24, 28, 32}, "api-superpoly"))
+			cs = append(cs, growthCase("method-call chain with arguments", func(d int) string { return "1" + strings.Repeat(".max(2).min(3)", d/2) }, []int{4, 8, 12, 16, 20, 24, 28, 32}, "api-superpoly"))
+			cs = append(cs, hostGrowthCase())
 			cs = append(cs, growthCase("list nest [[…]]", func(d int) string { return nest("[", "]", "1", d) }, []int{50, 100, 200, 400, 800}, "api-superpoly"))
 			cs = append(cs, growthCase("map value nest [1:[1:…]]", func(d int) string { return strings.Repeat("[1:", d) + "1" + strings.Repeat("]", d) }, []int{8, 12, 16, 20, 24, 28, 32}, "api-superpoly-map-nest"))
 			cs = append(cs, growthCase("map key nest [[1:1]:1]", mapKeyNest, []int{6, 8, 10, 12, 14, 16, 18, 20, 22}, "api-superpoly-map-nest"))
